@@ -86,6 +86,11 @@ func genC19(t *core.Tape, tier string) *Scenario {
 				sc.Notes["panic_after_earlier_call"]++
 			}
 			p.RecoverErr = &ErrPlan{Code: uint32(1 + t.Choose(16, "rec.code")), Msg: "recovered: " + string(t.Bytes(4, 1, "rtext"))}
+			if t.Bool(1, 6, "rec.text.not.utf8") {
+				// the recovery function quotes a panic value that is not valid UTF-8
+				p.RecoverErr.Msg = "recovered: panic(\"bad frame \xff\xfe\x80\") " + string(t.Bytes(2, 1, "rtext2"))
+				sc.Notes["recovery_error_text_not_utf8"]++
+			}
 			earlyExitKnobs(p)
 		} else {
 			sc.Notes["control_no_panic"]++
@@ -190,7 +195,7 @@ func checkC19(w *World, st core.Status, r *RunResult) []Violation {
 		var ce *connect.Error
 		if !o.FinalSet || o.Final == nil {
 			add("recovered-error-lost", "client saw success although the recovery function returned an error")
-		} else if !errors.As(o.Final, &ce) || ce.Code() != connect.Code(p.RecoverErr.Code) || ce.Message() != p.RecoverErr.Msg {
+		} else if !errors.As(o.Final, &ce) || ce.Code() != connect.Code(p.RecoverErr.Code) || !sameText(p.RecoverErr.Msg, ce.Message()) {
 			add("recovered-error-differs", fmt.Sprintf("recovery function returned code %d %q, client got %v", p.RecoverErr.Code, p.RecoverErr.Msg, o.Final))
 		}
 		if p.Kind == KServer || p.Kind == KBidi {
